@@ -98,8 +98,23 @@ func gen(t *rapid.T) Case {
 var winDirs = []string{"", ".", `templates`, `templates\pages`, `templates/pages`, `C:\srv\tmpl`, `C:\`, `C:`, `\\host\share\t`, `\`, `a\..\b`, `..`, `a\`, `static/templates/`, `a;b`}
 var winNames = []string{"C:", "C:x", "c:/x", `C:\x`, "z:..", "//host/share/x", `\\host\share\x`, "//./pipe/x", `\\.\pipe\x`, `\\?\C:\x`, `\??\C:\x`, "../x", `..\x`, "a/b", `a\b`, "/", `\`, ";", "a;b", "x:", "ab:c", "x.tmpl::$DATA", "NUL", "nul.txt", "COM1", "..", ".", "", "...", ".. ", "..a", "a..", "x.tmpl", "a", ":", " ", "\x00", "∕", "／", "＼", "․․", "%2e%2e", "%5c", "*", "?"}
 
+// winConstOK: the constant part is a path a program would spell out - a colon only as the drive prefix of dir. (After
+// an element that ends in ':' the Windows Join adds no separator, so the filename would continue that element.)
+func winConstOK(dir, src string) bool {
+	if strings.Contains(src, ":") {
+		return false
+	}
+	if i := strings.IndexByte(dir, ':'); i >= 0 && !(i == 1 && driveLetter(dir) && strings.Count(dir, ":") == 1) {
+		return false
+	}
+	return true
+}
+
 func checkWin(c Case) evid.Outcome {
 	dir, src, fn := string(c.Dir), string(c.Src), string(c.Filename)
+	if !winConstOK(dir, src) {
+		return evid.Outcome{Skip: true, Labels: []string{"constant-part-with-colon"}}
+	}
 	r, err := winsrc.FromConstantDir(dir, src, fn)
 	o := evid.Outcome{NonTrivial: strings.ContainsAny(fn, "./:\\;") || !isASCII(fn)}
 	if err != nil {
@@ -144,9 +159,8 @@ func driveLetter(p string) bool {
 
 func genWin(t *rapid.T) Case {
 	c := Case{Dir: evid.BStr(rapid.SampledFrom(winDirs).Draw(t, "dir")), Src: evid.BStr(rapid.SampledFrom(winDirs).Draw(t, "src"))}
-	if c.Dir != "" && winpath.VolumeName(string(c.Src)) != "" {
-		// a volume name in the middle of the constant part is not a path a program would spell out (Join then glues
-		// what follows a trailing ':' to it without a separator)
+	if !winConstOK(string(c.Dir), string(c.Src)) || c.Dir != "" && winpath.VolumeName(string(c.Src)) != "" {
+		// a volume name in the middle of the constant part is not a path a program would spell out
 		c.Src = ""
 	}
 	switch rapid.IntRange(0, 2).Draw(t, "kind") {
